@@ -93,7 +93,8 @@ pub trait Engine: Sync {
         default
     }
     fn budget(&self, tier: Tier) -> Duration {
-        Duration::from_secs(tier.pick(50, 1500))
+        // a cap, not a target: quick runs take a fraction of it on an idle machine
+        Duration::from_secs(tier.pick(150, 1500))
     }
     /// enumerate this worker's share of the space and evaluate it
     fn explore(&self, tier: Tier, ctx: &mut Ctx);
@@ -164,6 +165,7 @@ impl Ctx {
     /// Counts one evaluated case.
     #[inline]
     pub fn case(&mut self, nontrivial: bool) {
+        PROGRESS.fetch_add(1, std::sync::atomic::Ordering::Relaxed);
         self.evaluations += 1;
         if nontrivial {
             self.nontrivial += 1;
@@ -298,6 +300,7 @@ struct Args {
     tier: Tier,
     worker: Option<(u64, u64)>,
     replay: Option<PathBuf>,
+    shrink: Option<PathBuf>,
 }
 
 fn parse_args() -> Args {
@@ -309,6 +312,7 @@ fn parse_args() -> Args {
     };
     let mut worker = None;
     let mut replay = None;
+    let mut shrink = None;
     while let Some(a) = it.next() {
         match a.as_str() {
             "--tier" => {
@@ -324,11 +328,12 @@ fn parse_args() -> Args {
                 worker = Some((a.parse().unwrap(), b.parse().unwrap()));
             }
             "--replay" => replay = Some(PathBuf::from(it.next().unwrap_or_default())),
+            "--shrink" => shrink = Some(PathBuf::from(it.next().unwrap_or_default())),
             s if id.is_empty() && !s.starts_with('-') => id = s.to_string(),
             s => die(&format!("unknown argument {s}")),
         }
     }
-    Args { id, tier, worker, replay }
+    Args { id, tier, worker, replay, shrink }
 }
 
 fn die(msg: &str) -> ! {
@@ -352,13 +357,46 @@ pub fn main_for(engines: &[&dyn Engine]) {
             engines.iter().map(|e| e.id()).collect::<Vec<_>>()
         ));
     };
+    if let Some(path) = &args.shrink {
+        shrink_main(*engine, path);
+    }
     match args.worker {
         Some((i, n)) => worker_main(*engine, args.tier, i, n),
         None => parent_main(*engine, args.tier),
     }
 }
 
+/// Cases completed by this worker process; watched by the stall detector.
+static PROGRESS: std::sync::atomic::AtomicU64 = std::sync::atomic::AtomicU64::new(0);
+
+/// Exit code of a worker that completed no case for the stall limit: it is stuck inside one
+/// evaluation (a loop in the subject that allocates nothing and reaches no hook).
+const STALL_EXIT: i32 = 86;
+
+fn stall_limit(tier: Tier) -> Duration {
+    let default = tier.pick(90, 600);
+    Duration::from_secs(std::env::var("TGV_STALL_SECS").ok().and_then(|s| s.parse().ok()).unwrap_or(default))
+}
+
 fn worker_main(engine: &dyn Engine, tier: Tier, shard: u64, nshards: u64) -> ! {
+    {
+        let limit = stall_limit(tier);
+        std::thread::spawn(move || {
+            let mut last = PROGRESS.load(std::sync::atomic::Ordering::Relaxed);
+            let mut since = Instant::now();
+            loop {
+                std::thread::sleep(Duration::from_millis(500));
+                let now = PROGRESS.load(std::sync::atomic::Ordering::Relaxed);
+                if now != last {
+                    last = now;
+                    since = Instant::now();
+                } else if since.elapsed() > limit {
+                    eprintln!("worker stalled: no case completed for {limit:?} (stuck inside one evaluation)");
+                    std::process::exit(STALL_EXIT);
+                }
+            }
+        });
+    }
     let trace = std::env::var("TGV_TRACE_FILE").ok().map(|p| {
         fs::OpenOptions::new()
             .create(true)
@@ -415,6 +453,20 @@ fn run_worker(id: &str, tier: Tier, i: u64, n: u64, trace_file: Option<&Path>, h
         }
         None => {
             cmd.env_remove("TGV_TRACE_FILE");
+        }
+    }
+    // a runaway evaluation (a loop that allocates for ever) must end as a dead worker that is
+    // attributed to its traced case, not as a machine without memory: cap the worker's address space
+    {
+        use std::os::unix::process::CommandExt;
+        let mb: u64 = std::env::var("TGV_AS_LIMIT_MB").ok().and_then(|s| s.parse().ok()).unwrap_or(3072);
+        cmd.env("MALLOC_ARENA_MAX", "4");
+        unsafe {
+            cmd.pre_exec(move || {
+                let lim = libc::rlimit { rlim_cur: (mb << 20) as libc::rlim_t, rlim_max: (mb << 20) as libc::rlim_t };
+                libc::setrlimit(libc::RLIMIT_AS, &lim);
+                Ok(())
+            });
         }
     }
     let mut child = cmd.spawn().expect("spawn worker");
@@ -610,7 +662,7 @@ fn parent_main(engine: &dyn Engine, tier: Tier) -> ! {
             let f = if clause == "crash" {
                 f
             } else {
-                match confirm_and_shrink(engine, f) {
+                match shrink_in_child(id, f, &work) {
                     Ok(f) => f,
                     Err(msg) => {
                         machinery_errors.push(msg);
@@ -759,6 +811,41 @@ fn parent_main(engine: &dyn Engine, tier: Tier) -> ! {
         std::process::exit(2);
     }
     std::process::exit(0)
+}
+
+/// `--shrink <file>`: confirm and shrink the failure stored in the file, print the outcome as one JSON line.
+fn shrink_main(engine: &dyn Engine, path: &Path) -> ! {
+    let f: Failure = fs::read_to_string(path).ok().and_then(|s| serde_json::from_str(&s).ok()).unwrap_or_else(|| die("unreadable --shrink file"));
+    let out = match confirm_and_shrink(engine, f) {
+        Ok(f) => json!({ "ok": f }),
+        Err(msg) => json!({ "err": msg }),
+    };
+    println!("{out}");
+    std::process::exit(0)
+}
+
+/// Confirmation and shrinking re-run the subject: they happen in a child process so that a crash of
+/// the subject on a candidate cannot take the report of the whole run with it.
+fn shrink_in_child(id: &str, f: Failure, work: &Path) -> Result<Failure, String> {
+    let path = work.join("shrink.json");
+    if fs::write(&path, serde_json::to_string(&f).unwrap_or_default()).is_err() {
+        return Ok(f);
+    }
+    let exe = std::env::current_exe().expect("current_exe");
+    let out = Command::new(exe).arg(id).arg("--shrink").arg(&path).stdin(Stdio::null()).stderr(Stdio::null()).output();
+    let parsed = out.as_ref().ok().filter(|o| o.status.success()).and_then(|o| {
+        String::from_utf8_lossy(&o.stdout).lines().rev().find_map(|l| serde_json::from_str::<Value>(l).ok())
+    });
+    match parsed {
+        Some(v) if v.get("ok").is_some() => serde_json::from_value::<Failure>(v["ok"].clone()).map_err(|e| e.to_string()),
+        Some(v) => Err(v["err"].as_str().unwrap_or("shrinking failed").to_string()),
+        None => {
+            // the shrinking process died: report the failure as found
+            let mut f = f;
+            f.detail.push_str(" (not shrunk: the process re-running it died)");
+            Ok(f)
+        }
+    }
 }
 
 fn confirm_and_shrink(engine: &dyn Engine, f: Failure) -> Result<Failure, String> {
